@@ -512,6 +512,9 @@ def run(ctx) -> None:
     tenv = types.TypeEnv(prog)
     registration(ctx)
     alias_rule(ctx)
+    from . import C06
+
+    C06.context_caches(ctx)
     n = shared.r_element(ctx, [
         f'{PARSER}:Container.Context.Tables.select', f'{SERIES}:Predicate.Factors.__init__',
         f'{SERIES}:Comparison.factors', f'{SERIES}:Not.factors',
